@@ -688,6 +688,20 @@ def run(ctx, report):
                       'the documented ValueError is raised, not a KeyError from the error handler itself', floor=1)
     frame_locals_rule(ctx, R10)
 
+    R11 = report.rule('C10.D11', 'every mnemonic / operand-size form the decoder can return has an AT&T mnemonic: mnemo_to_att, partially evaluated on every form, reaches a return '
+                      '(no "Mnemonic unknown" from the renderer; the instances and findings of C09.D1, shared)', floor=700)
+    from ..core import Report as _Report
+    from . import c09 as _c09
+    sub = _Report('C09', ctx.tier, ctx.root)
+    _c09.run(ctx, sub)
+    for r_ in sub.rules:
+        if r_.id == 'C09.D1':
+            R11.instances += r_.instances
+            R11.nontrivial |= r_.nontrivial
+            R11.samples += r_.samples[:3]
+            for f_ in r_.findings:
+                R11.violation(f_.key, f_.key, f_.what, f_.where, f_.witness, count=False)
+
     R4 = report.rule('C10.D4', 'truncated input is reported as absent; reads are bounds-checked; loops make progress', floor=12)
     if not tries or 'IOError' not in caught:
         R4.violation('_dis:try', '_dis:no-IOError-handler', 'the decoder has no try whose IOError handler returns None', where(arch, dis))
